@@ -115,3 +115,11 @@ package swarm
 //@ ensures !d.readOnly && manet.IsPublicAddr(addr) && d.udp != nil && isProtocolAddr(addr, ma.P_UDP) ==> called(RecordResult, 0)
 //@ ensures !d.readOnly && manet.IsPublicAddr(addr) && d.ipv6 != nil && isProtocolAddr(addr, ma.P_IP6) ==> called(RecordResult, 1)
 //@ noframe
+
+// the swarm wires the detector to its own two counters: the UDP filter to the UDP counter, the IPv6 filter to the
+// IPv6 counter (never the same counter for both kinds), in the configured mode
+//@ func NewSwarm
+//@ prop C20
+//@ ensures result1 == nil ==> result0 != nil && result0.bhd != nil && result0.bhd.udp == result0.udpBHF && result0.bhd.ipv6 == result0.ipv6BHF &&
+//@         result0.bhd.readOnly == result0.readOnlyBHD
+//@ noframe
